@@ -186,7 +186,32 @@ fn special_case(c: &J) -> Result<usize, String> {
     if !math.array_all_finite(&vxz) || math.array_all_finite_and_nonzero(&vxz) {
         return Err(format!("all_finite_and_nonzero misses 0 at {k} of {n}"));
     }
-    Ok(8)
+    // the finiteness tests for every class of value at this position, against the specification's table
+    let mut checks = 8;
+    if let Some(tests) = c["tests"].as_object() {
+        for (cl, want) in tests {
+            let v = match cl.as_str() {
+                "sub" => 5e-324,
+                "negsub" => -f64::MIN_POSITIVE / 2.0,
+                "zero" => 0.0,
+                "negzero" => -0.0,
+                "nan" => f64::NAN,
+                "pinf" => f64::INFINITY,
+                _ => f64::NEG_INFINITY,
+            };
+            // every other element normal, finite and non-zero
+            let mut xs: Vec<f64> = (0..n).map(|i| 1.0 + i as f64).collect();
+            xs[k] = v;
+            let vs = vecof(&mut math, &xs);
+            let got = (math.array_all_finite(&vs), math.array_all_finite_and_nonzero(&vs));
+            let want = (want[0].as_bool().unwrap(), want[1].as_bool().unwrap());
+            if got != want {
+                return Err(format!("finiteness tests with {cl} at {k} of {n}: (all_finite, all_finite_and_nonzero) = {got:?}, specification {want:?}"));
+            }
+            checks += 2;
+        }
+    }
+    Ok(checks)
 }
 
 pub fn main(args: &[String]) -> i32 {
